@@ -384,7 +384,14 @@ func (e *Extractor) concatSubContribution(sub *syntax.Regexp, depth int) *Seq {
 	case syntax.OpLiteral:
 		// Case-insensitive literal: expand all case-folding variants for cross-product.
 		if sub.Flags&syntax.FoldCase != 0 {
-			return e.expandCaseFoldLiteral(sub.Rune)
+			expanded := e.expandCaseFoldLiteral(sub.Rune)
+			if expanded.IsEmpty() {
+				// Even one position has more spellings than MaxLiterals allows:
+				// no information, which is not the same as "contributes nothing"
+				// (x(?i:k)y with MaxLiterals=1 became the complete literal "xy").
+				return nil
+			}
+			return expanded
 		}
 		b := runeSliceToBytes(sub.Rune)
 		return NewSeq(NewLiteral(b, true))
